@@ -1,10 +1,1267 @@
 // C11 harness, part 3: sparse matrices (see coq/C11/ModelMat.v).
+//
+//	--extra mat:<corpus path>   random histories on the real sparse matrices, written
+//	                            as Coq case files mat_<k>.v (mism_mat of coq/C11/CorrMat.v)
+//	--extra mat --replay f.json re-executes {"case": ...} and writes replay_mat_0.v
+//	--extra mathunt             property-level oracle (dense [][]int64 shadow), shrinks,
+//	                            writes mathunt.json {found, failure, at, case, tried}
+//
+// Only WHOLE matrices are created (constructors, Clone, T(), Tip()); Slice views are
+// C10's subject.  Every observation records the header (hook VerifC10Header) so that a
+// window would be visible.  The private `values` vector is read through the add-only
+// hook VerifC11MatValues (/repo/verif_c11_mat.go) + VerifC11Dump.
 package main
 
 import (
+	"encoding/json"
+	"fmt"
+	"os"
+	"strings"
+
 	. "adharness/common"
+
+	ad "github.com/pbenner/autodiff"
 )
 
+// MOp is one operation of a matrix history.  U: operand handle of Set, -1 = dense
+// operand R x C with row-major values XS.
+type MOp struct {
+	Op  string  `json:"op"`
+	T   int     `json:"t"`
+	U   int     `json:"u,omitempty"`
+	I   int64   `json:"i,omitempty"`
+	J   int64   `json:"j,omitempty"`
+	I2  int64   `json:"i2,omitempty"`
+	J2  int64   `json:"j2,omitempty"`
+	X   int64   `json:"x,omitempty"`
+	R   int64   `json:"r,omitempty"`
+	C   int64   `json:"c,omitempty"`
+	RI  []int64 `json:"ri,omitempty"`
+	CI  []int64 `json:"ci,omitempty"`
+	XS  []int64 `json:"xs,omitempty"`
+	Bad bool    `json:"bad,omitempty"`
+}
+type MCase struct {
+	Type string `json:"type"`
+	Mat  bool   `json:"mat"`
+	Ops  []MOp  `json:"ops"`
+	Outs []Out  `json:"outs,omitempty"`
+}
+
+func newSparseMat(name string, ri, ci, xs []int64, r, c int) ad.Matrix {
+	a, b := ints(ri), ints(ci)
+	switch name {
+	case "float64":
+		v := make([]float64, len(xs))
+		for i, x := range xs {
+			v[i] = float64(x)
+		}
+		return ad.NewSparseFloat64Matrix(a, b, v, r, c)
+	case "float32":
+		v := make([]float32, len(xs))
+		for i, x := range xs {
+			v[i] = float32(x)
+		}
+		return ad.NewSparseFloat32Matrix(a, b, v, r, c)
+	case "int":
+		v := make([]int, len(xs))
+		for i, x := range xs {
+			v[i] = int(x)
+		}
+		return ad.NewSparseIntMatrix(a, b, v, r, c)
+	case "int8":
+		v := make([]int8, len(xs))
+		for i, x := range xs {
+			v[i] = int8(x)
+		}
+		return ad.NewSparseInt8Matrix(a, b, v, r, c)
+	case "int16":
+		v := make([]int16, len(xs))
+		for i, x := range xs {
+			v[i] = int16(x)
+		}
+		return ad.NewSparseInt16Matrix(a, b, v, r, c)
+	case "int32":
+		v := make([]int32, len(xs))
+		for i, x := range xs {
+			v[i] = int32(x)
+		}
+		return ad.NewSparseInt32Matrix(a, b, v, r, c)
+	case "int64":
+		v := make([]int64, len(xs))
+		for i, x := range xs {
+			v[i] = int64(x)
+		}
+		return ad.NewSparseInt64Matrix(a, b, v, r, c)
+	case "real32":
+		v := make([]float32, len(xs))
+		for i, x := range xs {
+			v[i] = float32(x)
+		}
+		return ad.NewSparseReal32Matrix(a, b, v, r, c)
+	case "real64":
+		v := make([]float64, len(xs))
+		for i, x := range xs {
+			v[i] = float64(x)
+		}
+		return ad.NewSparseReal64Matrix(a, b, v, r, c)
+	}
+	Die("unknown element type %s", name)
+	return nil
+}
+
+func denseMat(xs []int64, r, c int) ad.Matrix {
+	v := make([]float64, len(xs))
+	for i, x := range xs {
+		v[i] = float64(x)
+	}
+	return ad.NewDenseFloat64Matrix(v, r, c)
+}
+
+type MWorld struct {
+	Type string
+	M    []ad.Matrix
+}
+
+func (w *MWorld) execOne(o MOp) (kind int64, payload []int64) {
+	payload = []int64{}
+	defer func() {
+		if r := recover(); r != nil {
+			kind = K_PANIC
+			payload = []int64{}
+		}
+	}()
+	st := scalarType(w.Type)
+	var m ad.Matrix
+	if o.Op != "New" {
+		m = w.M[o.T]
+	}
+	switch o.Op {
+	case "New":
+		nm := newSparseMat(w.Type, o.RI, o.CI, o.XS, int(o.R), int(o.C))
+		w.M = append(w.M, nm)
+	case "At":
+		payload = append(payload, int64(m.At(int(o.I), int(o.J)).GetFloat64()))
+	case "SetAt":
+		m.At(int(o.I), int(o.J)).SetFloat64(float64(o.X))
+	case "ConstAt":
+		payload = append(payload, int64(m.ConstAt(int(o.I), int(o.J)).GetFloat64()))
+	case "Set":
+		if o.U < 0 {
+			m.Set(denseMat(o.XS, int(o.R), int(o.C)))
+		} else {
+			m.Set(w.M[o.U])
+		}
+	case "Reset":
+		m.Reset()
+	case "SetIdentity":
+		m.SetIdentity()
+	case "Swap":
+		m.Swap(int(o.I), int(o.J), int(o.I2), int(o.J2))
+	case "SwapRows":
+		if err := m.SwapRows(int(o.I), int(o.J)); err != nil {
+			kind = K_ERR
+		}
+	case "SwapColumns":
+		if err := m.SwapColumns(int(o.I), int(o.J)); err != nil {
+			kind = K_ERR
+		}
+	case "T":
+		w.M = append(w.M, m.T())
+	case "Tip":
+		m.Tip()
+	case "Clone":
+		w.M = append(w.M, m.CloneMatrix())
+	case "Iterate":
+		g := 0
+		for it := m.ConstIterator(); it.Ok(); it.Next() {
+			i, j := it.Index()
+			payload = append(payload, int64(i), int64(j), int64(it.GetConst().GetFloat64()))
+			if g++; g > 10000 {
+				payload = append(payload, C_LOOP)
+				break
+			}
+		}
+	case "IterPart":
+		it := m.ConstIterator()
+		for c := int64(0); c < o.I && it.Ok(); c++ {
+			i, j := it.Index()
+			payload = append(payload, int64(i), int64(j), int64(it.GetConst().GetFloat64()))
+			it.Next()
+		}
+	case "MapMul":
+		c := float64(o.X)
+		m.Map(func(s ad.Scalar) { s.SetFloat64(s.GetFloat64() * c) })
+	case "MapSetMul":
+		c := float64(o.X)
+		m.MapSet(func(s ad.ConstScalar) ad.Scalar { return ad.NewScalar(st, s.GetFloat64()*c) })
+	case "ReduceSum":
+		r := m.Reduce(func(r ad.Scalar, s ad.ConstScalar) ad.Scalar {
+			r.SetFloat64(r.GetFloat64() + s.GetFloat64())
+			return r
+		}, ad.NewScalar(ad.Float64Type, 0))
+		payload = append(payload, int64(r.GetFloat64()))
+	case "Dims":
+		r, c := m.Dims()
+		payload = append(payload, int64(r), int64(c))
+	case "Row":
+		payload = observeVec(m.Row(int(o.I))).Flat
+	case "Col":
+		payload = observeVec(m.Col(int(o.I))).Flat
+	case "Diag":
+		payload = observeVec(m.Diag()).Flat
+	default:
+		Die("unknown matrix op %s", o.Op)
+	}
+	return
+}
+
+// ---------------------------------------------------------------- observation
+
+type MatObs struct {
+	Rows, Cols int
+	Whole      bool
+	Reads      []int64 // row-major; C_PANIC where the read panicked
+	ReadOK     bool
+	Keys       []int64
+	Vals       []int64
+	Nil        []bool
+	Cells      []uintptr
+	Index      []int64
+	Len        int
+	Iter       []int64 // (i, j, value) triples of the clone's ConstIterator
+	IterOK     bool
+	Flat       []int64
+}
+
+func mreadAt(m ad.Matrix, i, j int) (x int64, ok bool) {
+	defer func() {
+		if r := recover(); r != nil {
+			x, ok = C_PANIC, false
+		}
+	}()
+	return int64(m.ConstAt(i, j).GetFloat64()), true
+}
+func mcloneIter(m ad.Matrix) (seq []int64, ok bool) {
+	seq = []int64{}
+	defer func() {
+		if r := recover(); r != nil {
+			seq, ok = []int64{C_CLONE}, false
+		}
+	}()
+	c := m.CloneMatrix()
+	g := 0
+	for it := c.ConstIterator(); it.Ok(); it.Next() {
+		i, j := it.Index()
+		seq = append(seq, int64(i), int64(j), int64(it.GetConst().GetFloat64()))
+		if g++; g > 10000 {
+			return []int64{C_LOOP}, false
+		}
+	}
+	return seq, true
+}
+
+func observeMat(m ad.Matrix) MatObs {
+	var o MatObs
+	o.Rows, o.Cols = m.Dims()
+	hd, _ := ad.VerifC10Header(m)
+	o.Len = hd.Len
+	o.Whole = hd.Sparse && hd.RowOffset == 0 && hd.ColOffset == 0 && hd.RowMax == o.Rows && hd.ColMax == o.Cols && hd.Len == o.Rows*o.Cols
+	f := []int64{int64(o.Rows), int64(o.Cols), int64(hd.RowOffset), int64(hd.RowMax), int64(hd.ColOffset), int64(hd.ColMax), int64(hd.Len), SEP}
+	o.ReadOK = true
+	for i := 0; i < o.Rows; i++ {
+		for j := 0; j < o.Cols; j++ {
+			x, ok := mreadAt(m, i, j)
+			if !ok {
+				o.ReadOK = false
+			}
+			o.Reads = append(o.Reads, x)
+			f = append(f, x)
+		}
+	}
+	f = append(f, SEP)
+	vv, _ := ad.VerifC11MatValues(m)
+	st := ad.VerifC11Dump(vv)
+	for _, e := range st.Entries {
+		o.Keys = append(o.Keys, int64(e.Key))
+		o.Nil = append(o.Nil, e.Nil)
+		o.Cells = append(o.Cells, e.Cell)
+		x := int64(e.Value)
+		if e.Nil {
+			x = C_NIL
+		}
+		o.Vals = append(o.Vals, x)
+		f = append(f, int64(e.Key), x)
+	}
+	f = append(f, SEP)
+	for _, k := range st.Index {
+		o.Index = append(o.Index, int64(k))
+		f = append(f, int64(k))
+	}
+	f = append(f, SEP)
+	o.Iter, o.IterOK = mcloneIter(m)
+	f = append(f, o.Iter...)
+	f = append(f, SEP)
+	o.Flat = f
+	return o
+}
+
+func (w *MWorld) observe() ([]MatObs, int64) {
+	obs := make([]MatObs, len(w.M))
+	h := int64(17)
+	for i, m := range w.M {
+		obs[i] = observeMat(m)
+		h = hashList(h, obs[i].Flat)
+	}
+	return obs, h
+}
+
+func mexecute(c MCase) []Out {
+	w := &MWorld{Type: c.Type}
+	outs := make([]Out, 0, len(c.Ops))
+	for _, o := range c.Ops {
+		k, p := w.execOne(o)
+		_, h := w.observe()
+		outs = append(outs, Out{k, p, h})
+	}
+	return outs
+}
+
+// ---------------------------------------------------------------- Coq printing
+
+func coqMOp(o MOp) string {
+	switch o.Op {
+	case "New":
+		return fmt.Sprintf("NewMat %s %s %s %s %s", ZList(o.RI), ZList(o.CI), ZList(o.XS), Z(o.R), Z(o.C))
+	case "At":
+		return fmt.Sprintf("MAt %d %s %s", o.T, Z(o.I), Z(o.J))
+	case "ConstAt":
+		return fmt.Sprintf("MConstAt %d %s %s", o.T, Z(o.I), Z(o.J))
+	case "SetAt":
+		return fmt.Sprintf("MSetAt %d %s %s %s", o.T, Z(o.I), Z(o.J), Z(o.X))
+	case "Set":
+		if o.U < 0 {
+			return fmt.Sprintf("MSet %d (OMD %s %s %s)", o.T, Z(o.R), Z(o.C), ZList(o.XS))
+		}
+		return fmt.Sprintf("MSet %d (OM %d)", o.T, o.U)
+	case "Reset", "SetIdentity", "T", "Tip", "Clone", "Iterate", "ReduceSum", "Dims", "Diag":
+		return fmt.Sprintf("M%s %d", o.Op, o.T)
+	case "Swap":
+		return fmt.Sprintf("MSwap %d %s %s %s %s", o.T, Z(o.I), Z(o.J), Z(o.I2), Z(o.J2))
+	case "SwapRows", "SwapColumns":
+		return fmt.Sprintf("M%s %d %s %s", o.Op, o.T, Z(o.I), Z(o.J))
+	case "IterPart":
+		return fmt.Sprintf("MIterPart %d %d", o.T, o.I)
+	case "MapMul", "MapSetMul":
+		return fmt.Sprintf("M%s %d %s", o.Op, o.T, Z(o.X))
+	case "Row", "Col":
+		return fmt.Sprintf("M%s %d %s", o.Op, o.T, Z(o.I))
+	}
+	Die("coqMOp: unknown op %s", o.Op)
+	return ""
+}
+func coqMCase(c MCase) string {
+	ops := make([]string, len(c.Ops))
+	for i, o := range c.Ops {
+		ops[i] = coqMOp(o)
+	}
+	outs := make([]string, len(c.Outs))
+	for i, o := range c.Outs {
+		outs[i] = fmt.Sprintf("(%s, %s, %s)", Z(o.K), ZList(o.P), Z(o.H))
+	}
+	return "(" + List(ops) + ",\n   " + List(outs) + ")"
+}
+
+const hdrMat = "From Coq Require Import ZArith List Bool. Import ListNotations.\nFrom ADV Require Import C11.Model C11.ModelMat C11.CorrMat.\nOpen Scope Z_scope.\n"
+
+const ruleMat = "random histories (<= 30 ops, <= 4 whole sparse matrices of dims 0..5 x 0..5 incl. 0xn, nx0, 1xn, nx1, non-square; values in -8..8 kept below 100 in absolute value; element type drawn from all nine sparse matrix types, float64/int/real64 get half) over NewSparseMatrix(incl. duplicate and zero-valued positions)/At/SetAt(incl. zeros)/ConstAt/Set(sparse incl. itself and its own T()|dense)/Reset/SetIdentity/Swap/SwapRows/SwapColumns/T/Tip/Clone/ConstIterator(full|partial)/Map/MapSet/Reduce/Dims/Row/Col/Diag; 1 in 5 histories also draws malformed ops (out-of-range indices, dimension mismatch in Set, SwapRows/SwapColumns/Diag on non-square, constructor with out-of-range position or unequal slice lengths); a case is non-trivial iff it contains >= 6 mutating ops, >= 1 Set, >= 1 re-keying op (Swap/SwapRows/SwapColumns/T/Tip) and some matrix held a stored zero at some step; distinct = distinct (type, op list)"
+
+// ---------------------------------------------------------------- generator
+
+type mstats struct {
+	mut, set, rekey int
+	quirk           bool
+	bad             int
+}
+
+func (s mstats) nontrivial() bool { return s.mut >= 6 && s.set >= 1 && s.rekey >= 1 && s.quirk }
+
+const maxMats = 4
+
+func mdims(r *Rng) (int, int) {
+	switch r.Intn(8) {
+	case 0:
+		return 0, r.Range(0, 5)
+	case 1:
+		return r.Range(1, 5), 0
+	case 2:
+		return 1, r.Range(1, 5)
+	case 3:
+		return r.Range(1, 5), 1
+	case 4, 5:
+		n := r.Range(1, 5)
+		return n, n
+	}
+	return r.Range(1, 5), r.Range(1, 5)
+}
+
+func genNewMat(r *Rng, obs []MatObs, bad bool) MOp {
+	rows, cols := mdims(r)
+	if len(obs) > 0 && r.Intn(2) == 0 {
+		u := r.Intn(len(obs))
+		rows, cols = obs[u].Rows, obs[u].Cols
+		if r.Intn(3) == 0 {
+			rows, cols = cols, rows
+		}
+	}
+	o := MOp{Op: "New", R: int64(rows), C: int64(cols)}
+	n := rows * cols
+	cnt := 0
+	switch r.Intn(4) {
+	case 0:
+		cnt = 0
+	case 1:
+		cnt = (n + 3) / 4
+	case 2:
+		cnt = (n + 1) / 2
+	case 3:
+		cnt = n + 2 // duplicates certain
+	}
+	if n == 0 {
+		cnt = 0
+	}
+	for k := 0; k < cnt; k++ {
+		o.RI = append(o.RI, int64(r.Intn(rows)))
+		o.CI = append(o.CI, int64(r.Intn(cols)))
+		o.XS = append(o.XS, val(r))
+	}
+	if bad {
+		o.Bad = true
+		switch r.Intn(4) {
+		case 0: // out-of-range position with a non-zero value: panics
+			o.RI = append(o.RI, int64(rows))
+			o.CI = append(o.CI, 0)
+			o.XS = append(o.XS, 3)
+		case 1: // out-of-range position with a ZERO value: skipped, no panic
+			o.RI = append(o.RI, 0)
+			o.CI = append(o.CI, int64(cols))
+			o.XS = append(o.XS, 0)
+		case 2:
+			o.RI = append(o.RI, -1)
+			o.CI = append(o.CI, 0)
+			o.XS = append(o.XS, 4)
+		case 3:
+			o.XS = append(o.XS, 1)
+		}
+	}
+	return o
+}
+
+func mmaxAbs(o MatObs) int64 {
+	m := int64(0)
+	for _, x := range append(append([]int64{}, o.Vals...), o.Reads...) {
+		if x < 0 {
+			x = -x
+		}
+		if x > m {
+			m = x
+		}
+	}
+	return m
+}
+
+// genMatCase draws a history while running it on the implementation.
+func genMatCase(r *Rng, tn string, withBad bool, cw *CaseWriter) (MCase, mstats) {
+	var st mstats
+	c := MCase{Type: tn, Mat: true}
+	w := &MWorld{Type: tn}
+	nops := r.Range(8, 30)
+	count := func(k string) {
+		if cw != nil {
+			cw.Count(k)
+		}
+	}
+	for len(c.Ops) < nops {
+		obs, _ := w.observe()
+		for _, ob := range obs {
+			for _, x := range ob.Vals {
+				if x == 0 {
+					st.quirk = true
+				}
+			}
+		}
+		bad := withBad && r.Intn(6) == 0
+		var o MOp
+		if len(obs) == 0 {
+			o = genNewMat(r, obs, false)
+		} else {
+			t := r.Intn(len(obs))
+			ob := obs[t]
+			rows, cols := ob.Rows, ob.Cols
+			nonempty := rows > 0 && cols > 0
+			pos := func() (int64, int64) { return int64(r.Intn(rows)), int64(r.Intn(cols)) }
+			badPos := func() (int64, int64) {
+				switch r.Intn(4) {
+				case 0:
+					return -1, 0
+				case 1:
+					return int64(rows), 0
+				case 2:
+					return 0, int64(cols)
+				}
+				return int64(rows) + 1, int64(cols) + 2
+			}
+			kinds := []string{"New", "At", "SetAt", "ConstAt", "Set", "Reset", "SetIdentity", "Swap", "SwapRows", "SwapColumns",
+				"T", "Tip", "Clone", "Iterate", "IterPart", "MapMul", "MapSetMul", "ReduceSum", "Dims", "Row", "Col", "Diag"}
+			weights := []int{5, 4, 16, 4, 10, 2, 4, 8, 3, 3, 4, 3, 3, 6, 3, 3, 2, 2, 1, 2, 2, 1}
+			k := kinds[r.Pick(weights)]
+			o = MOp{Op: k, T: t}
+			switch k {
+			case "New":
+				if len(obs) >= maxMats {
+					continue
+				}
+				o = genNewMat(r, obs, bad)
+			case "T", "Clone":
+				if len(obs) >= maxMats {
+					continue
+				}
+			case "At", "ConstAt", "SetAt":
+				if bad {
+					o.I, o.J = badPos()
+					o.Bad = true
+				} else if nonempty {
+					o.I, o.J = pos()
+				} else {
+					continue
+				}
+				if k == "SetAt" {
+					o.X = val(r)
+				}
+			case "Set":
+				// operands: a matrix of the world with the same dims (incl. itself), else dense
+				var cand []int
+				for u := range obs {
+					if obs[u].Rows == rows && obs[u].Cols == cols {
+						cand = append(cand, u)
+					}
+				}
+				if bad {
+					o.Bad = true
+					o.U = -1
+					o.R, o.C = int64(rows)+1, int64(cols)
+					if r.Bool() {
+						o.R, o.C = int64(cols)+1, int64(rows)
+					}
+					o.XS = vals(r, int(o.R*o.C))
+					for u := range obs {
+						if (obs[u].Rows != rows || obs[u].Cols != cols) && r.Bool() {
+							o.U, o.R, o.C, o.XS = u, 0, 0, nil
+						}
+					}
+				} else if len(cand) > 1 && r.Intn(3) != 0 || r.Intn(8) == 0 {
+					o.U = cand[r.Intn(len(cand))]
+				} else {
+					o.U = -1
+					o.R, o.C = int64(rows), int64(cols)
+					o.XS = vals(r, rows*cols)
+				}
+			case "Swap":
+				if bad {
+					o.Bad = true
+					o.I, o.J = badPos()
+					if nonempty {
+						o.I2, o.J2 = pos()
+						if r.Bool() {
+							o.I, o.J, o.I2, o.J2 = o.I2, o.J2, o.I, o.J
+						}
+					}
+				} else if nonempty {
+					o.I, o.J = pos()
+					o.I2, o.J2 = pos()
+				} else {
+					continue
+				}
+			case "SwapRows", "SwapColumns":
+				switch {
+				case bad && rows == cols && rows > 0:
+					o.Bad = true
+					o.I, o.J = int64(r.Intn(rows)), int64(rows)
+					if r.Bool() {
+						o.I, o.J = -1, int64(r.Intn(rows))
+					}
+				case rows != cols:
+					// returns an error, changes nothing: part of the valid stream too (rarely)
+					if !bad && r.Intn(3) != 0 {
+						continue
+					}
+					o.I, o.J = 0, 0
+					if rows > 1 {
+						o.J = 1
+					}
+				case rows == 0:
+					o.I, o.J = 0, 0 // 0 x 0: no loop iteration, returns nil
+				default:
+					o.I, o.J = int64(r.Intn(rows)), int64(r.Intn(rows))
+				}
+			case "IterPart":
+				o.I = int64(r.Range(0, 4))
+			case "MapMul", "MapSetMul":
+				cs := []int64{-2, -1, 0, 2, 3, 1}
+				o.X = cs[r.Intn(len(cs))]
+				ax := o.X
+				if ax < 0 {
+					ax = -ax
+				}
+				if mmaxAbs(ob)*ax > 100 {
+					o.X = -1
+				}
+			case "Row":
+				if bad {
+					o.Bad = true
+					o.I = int64(rows)
+				} else if rows > 0 {
+					o.I = int64(r.Intn(rows))
+				} else {
+					continue
+				}
+			case "Col":
+				if bad {
+					o.Bad = true
+					o.I = int64(cols)
+				} else if cols > 0 {
+					o.I = int64(r.Intn(cols))
+				} else {
+					continue
+				}
+			case "Diag":
+				if rows != cols && !bad {
+					continue
+				}
+			}
+		}
+		c.Ops = append(c.Ops, o)
+		w.execOne(o)
+		count("op:" + o.Op)
+		if o.Bad {
+			st.bad++
+			count("malformed")
+		}
+		switch o.Op {
+		case "SetAt", "Set", "Reset", "SetIdentity", "Swap", "SwapRows", "SwapColumns", "Tip", "MapMul", "MapSetMul", "At", "T":
+			st.mut++
+		}
+		switch o.Op {
+		case "Set":
+			st.set++
+			if o.U < 0 {
+				count("set:dense")
+			} else if o.U == o.T {
+				count("set:self")
+			} else {
+				count("set:sparse")
+			}
+		case "Swap", "SwapRows", "SwapColumns", "T", "Tip":
+			st.rekey++
+		}
+	}
+	if cw != nil {
+		for _, m := range w.M {
+			r, cc := m.Dims()
+			switch {
+			case r == 0 || cc == 0:
+				count("shape:empty")
+			case r == cc:
+				count("shape:square")
+			case r == 1 || cc == 1:
+				count("shape:line")
+			default:
+				count("shape:rect")
+			}
+		}
+	}
+	return c, st
+}
+
+// ---------------------------------------------------------------- property oracle
+
+func mnonzero(reads []int64, cols int) []int64 {
+	r := []int64{}
+	for k, x := range reads {
+		if x != 0 {
+			r = append(r, int64(k/cols), int64(k%cols), x)
+		}
+	}
+	return r
+}
+
+// invariant on the hook dump + self consistency of one matrix
+func checkMat(i int, o MatObs, rows, cols int) string {
+	if o.Rows != rows || o.Cols != cols {
+		return fmt.Sprintf("matrix %d: Dims()=%dx%d but the history gives it %dx%d (no operation changes dimensions except T/Tip swapping them)", i, o.Rows, o.Cols, rows, cols)
+	}
+	if !o.Whole {
+		return fmt.Sprintf("matrix %d: header is not that of a whole %dx%d matrix (window or storage length %d)", i, rows, cols, o.Len)
+	}
+	inIdx := map[int64]bool{}
+	for k, x := range o.Index {
+		if x < 0 || x >= int64(rows*cols) {
+			return fmt.Sprintf("matrix %d: index key %d outside [0,%d)", i, x, rows*cols)
+		}
+		if k > 0 && o.Index[k-1] >= x {
+			return fmt.Sprintf("matrix %d: index keys not strictly ascending", i)
+		}
+		inIdx[x] = true
+	}
+	for k, key := range o.Keys {
+		if o.Nil[k] {
+			return fmt.Sprintf("matrix %d: nil placeholder stored at key %d", i, key)
+		}
+		if !inIdx[key] {
+			return fmt.Sprintf("matrix %d: value stored at key %d without an index key", i, key)
+		}
+	}
+	if !o.ReadOK {
+		return fmt.Sprintf("matrix %d: an in-range read panicked", i)
+	}
+	if !o.IterOK {
+		return fmt.Sprintf("matrix %d: Clone or iteration of the clone panicked / did not stop", i)
+	}
+	if !eqList(o.Iter, mnonzero(o.Reads, cols)) {
+		return fmt.Sprintf("matrix %d: iteration %v is not the row-major list of non-zero elements of %v (%dx%d)", i, o.Iter, o.Reads, rows, cols)
+	}
+	return ""
+}
+
+type shadow struct {
+	r, c int
+	v    []int64 // row-major
+}
+
+func (s shadow) at(i, j int64) int64 { return s.v[int(i)*s.c+int(j)] }
+func (s shadow) in(i, j int64) bool  { return i >= 0 && j >= 0 && i < int64(s.r) && j < int64(s.c) }
+func (s shadow) clone() shadow       { return shadow{s.r, s.c, cp(s.v)} }
+func (s shadow) transpose() shadow {
+	t := shadow{s.c, s.r, make([]int64, len(s.v))}
+	for i := 0; i < s.r; i++ {
+		for j := 0; j < s.c; j++ {
+			t.v[j*s.r+i] = s.v[i*s.c+j]
+		}
+	}
+	return t
+}
+
+func minRange(o MOp, sh []shadow) bool {
+	if o.Op == "New" {
+		if o.R < 0 || o.C < 0 || len(o.RI) != len(o.CI) || len(o.CI) != len(o.XS) {
+			return false
+		}
+		for k := range o.RI {
+			if o.RI[k] < 0 || o.CI[k] < 0 || o.RI[k] >= o.R || o.CI[k] >= o.C {
+				return false
+			}
+		}
+		return true
+	}
+	if o.T < 0 || o.T >= len(sh) {
+		return false
+	}
+	s := sh[o.T]
+	switch o.Op {
+	case "At", "ConstAt", "SetAt":
+		return s.in(o.I, o.J)
+	case "Set":
+		if o.U >= 0 {
+			return o.U < len(sh) && sh[o.U].r == s.r && sh[o.U].c == s.c
+		}
+		return int(o.R) == s.r && int(o.C) == s.c && len(o.XS) == s.r*s.c
+	case "Swap":
+		return s.in(o.I, o.J) && s.in(o.I2, o.J2)
+	case "SwapRows", "SwapColumns":
+		if s.r != s.c {
+			return true // answered by an error, nothing changes
+		}
+		return s.r == 0 || (o.I >= 0 && o.J >= 0 && o.I < int64(s.r) && o.J < int64(s.r))
+	case "Row":
+		return o.I >= 0 && o.I < int64(s.r)
+	case "Col":
+		return o.I >= 0 && o.I < int64(s.c)
+	case "Diag":
+		return s.r == s.c
+	case "MapMul", "MapSetMul":
+		return true
+	}
+	return true
+}
+
+func mcellSet(o MatObs) map[uintptr]bool {
+	m := map[uintptr]bool{}
+	for _, c := range o.Cells {
+		if c != 0 {
+			m[c] = true
+		}
+	}
+	return m
+}
+func msharing(obs []MatObs, t int) []int {
+	mine := mcellSet(obs[t])
+	var r []int
+	for u := range obs {
+		if u == t {
+			continue
+		}
+		for _, c := range obs[u].Cells {
+			if mine[c] {
+				r = append(r, u)
+				break
+			}
+		}
+	}
+	return r
+}
+
+// mpropCheck: the property itself on the implementation, independent of the Coq
+// model.  Dense shadow per matrix.  T() shares the EXISTING cells with its parent
+// (known finding F-SPT-REF of C10): a write of cell VALUES through a matrix that shares
+// cells with others (SetAt, Set, Reset, SetIdentity, Map, MapSet) makes the others'
+// values unpredictable for a dense model; they are "tainted" for that step: their
+// shadow is re-read from the implementation (invariant, reads succeeding, iteration
+// and Dims are still judged).  Set(b) with b sharing cells with the receiver taints
+// the receiver too.  Re-keying ops (Swap*, Tip) never write cell values: no taint.
+func mpropCheck(c MCase) (fail string, at int) {
+	defer func() {
+		if r := recover(); r != nil {
+			fail, at = fmt.Sprintf("harness-level panic: %v", r), -1
+		}
+	}()
+	w := &MWorld{Type: c.Type}
+	var sh []shadow
+	for k, o := range c.Ops {
+		if !minRange(o, sh) {
+			return "", -1 // outside the quantifier: the rest of the history is not judged
+		}
+		pre, _ := w.observe()
+		taint := map[int]bool{}
+		writes := func(t int) {
+			for _, u := range msharing(pre, t) {
+				taint[u] = true
+			}
+		}
+		var expP []int64
+		checkP := false
+		expK := int64(K_OK)
+		var vecExp []int64
+		vecCheck := false
+		switch o.Op {
+		case "New":
+			s := shadow{int(o.R), int(o.C), make([]int64, o.R*o.C)}
+			for i := range o.RI {
+				if o.XS[i] != 0 {
+					s.v[int(o.RI[i])*s.c+int(o.CI[i])] = o.XS[i]
+				}
+			}
+			sh = append(sh, s)
+		case "At", "ConstAt":
+			expP, checkP = []int64{sh[o.T].at(o.I, o.J)}, true
+		case "SetAt":
+			sh[o.T].v[int(o.I)*sh[o.T].c+int(o.J)] = o.X
+			writes(o.T)
+		case "Set":
+			writes(o.T)
+			if o.U >= 0 {
+				if o.U != o.T {
+					for _, u := range msharing(pre, o.T) {
+						if u == o.U {
+							taint[o.T] = true
+						}
+					}
+					sh[o.T].v = cp(sh[o.U].v)
+				}
+			} else {
+				sh[o.T].v = cp(o.XS)
+			}
+		case "Reset":
+			for i := range sh[o.T].v {
+				sh[o.T].v[i] = 0
+			}
+			writes(o.T)
+		case "SetIdentity":
+			s := sh[o.T]
+			for i := 0; i < s.r; i++ {
+				for j := 0; j < s.c; j++ {
+					if i == j {
+						s.v[i*s.c+j] = 1
+					} else {
+						s.v[i*s.c+j] = 0
+					}
+				}
+			}
+			writes(o.T)
+		case "Swap":
+			s := sh[o.T]
+			a, b := int(o.I)*s.c+int(o.J), int(o.I2)*s.c+int(o.J2)
+			s.v[a], s.v[b] = s.v[b], s.v[a]
+		case "SwapRows":
+			s := sh[o.T]
+			if s.r != s.c {
+				expK = K_ERR
+			} else {
+				for q := 0; q < s.c; q++ {
+					a, b := int(o.I)*s.c+q, int(o.J)*s.c+q
+					s.v[a], s.v[b] = s.v[b], s.v[a]
+				}
+			}
+		case "SwapColumns":
+			s := sh[o.T]
+			if s.r != s.c {
+				expK = K_ERR
+			} else {
+				for q := 0; q < s.r; q++ {
+					a, b := q*s.c+int(o.I), q*s.c+int(o.J)
+					s.v[a], s.v[b] = s.v[b], s.v[a]
+				}
+			}
+		case "T":
+			sh = append(sh, sh[o.T].transpose())
+		case "Tip":
+			sh[o.T] = sh[o.T].transpose()
+		case "Clone":
+			sh = append(sh, sh[o.T].clone())
+		case "Iterate":
+			expP, checkP = mnonzero(sh[o.T].v, sh[o.T].c), true
+		case "IterPart":
+			e := mnonzero(sh[o.T].v, sh[o.T].c)
+			if int64(len(e)) > 3*o.I {
+				e = e[:3*o.I]
+			}
+			expP, checkP = e, true
+		case "MapMul", "MapSetMul":
+			for i := range sh[o.T].v {
+				sh[o.T].v[i] *= o.X
+			}
+			writes(o.T)
+		case "ReduceSum":
+			s := int64(0)
+			for _, x := range sh[o.T].v {
+				s += x
+			}
+			expP, checkP = []int64{s}, true
+		case "Dims":
+			expP, checkP = []int64{int64(sh[o.T].r), int64(sh[o.T].c)}, true
+		case "Row":
+			s := sh[o.T]
+			vecExp, vecCheck = cp(s.v[int(o.I)*s.c:(int(o.I)+1)*s.c]), true
+		case "Col":
+			s := sh[o.T]
+			vecExp = []int64{}
+			for i := 0; i < s.r; i++ {
+				vecExp = append(vecExp, s.v[i*s.c+int(o.I)])
+			}
+			vecCheck = true
+		case "Diag":
+			s := sh[o.T]
+			vecExp = []int64{}
+			for i := 0; i < s.r; i++ {
+				vecExp = append(vecExp, s.v[i*s.c+i])
+			}
+			vecCheck = true
+		}
+		var vecGot ad.Vector
+		var kind int64
+		var p []int64
+		if vecCheck {
+			// run the op by hand to keep the vector
+			func() {
+				defer func() {
+					if r := recover(); r != nil {
+						kind = K_PANIC
+					}
+				}()
+				switch o.Op {
+				case "Row":
+					vecGot = w.M[o.T].Row(int(o.I))
+				case "Col":
+					vecGot = w.M[o.T].Col(int(o.I))
+				case "Diag":
+					vecGot = w.M[o.T].Diag()
+				}
+			}()
+		} else {
+			kind, p = w.execOne(o)
+		}
+		if kind != expK {
+			return fmt.Sprintf("op %d %s: outcome kind %d, expected %d (every in-range operation must succeed)", k, o.Op, kind, expK), k
+		}
+		if checkP && !eqList(p, expP) {
+			return fmt.Sprintf("op %d %s: returned %v, the dense model gives %v", k, o.Op, p, expP), k
+		}
+		if vecCheck {
+			vo := observeVec(vecGot)
+			if f := checkVec(-1, vo, len(vecExp)); f != "" {
+				return fmt.Sprintf("op %d %s: result vector incoherent: %s", k, o.Op, f), k
+			}
+			if !eqList(vo.Reads, vecExp) {
+				return fmt.Sprintf("op %d %s: result vector reads %v, the dense model gives %v", k, o.Op, vo.Reads, vecExp), k
+			}
+		}
+		obs, _ := w.observe()
+		if len(obs) != len(sh) {
+			return fmt.Sprintf("op %d %s: %d matrices exist, the history gives %d", k, o.Op, len(obs), len(sh)), k
+		}
+		for i := range obs {
+			if f := checkMat(i, obs[i], sh[i].r, sh[i].c); f != "" {
+				return fmt.Sprintf("after op %d %s: %s", k, o.Op, f), k
+			}
+			if taint[i] {
+				sh[i].v = cp(obs[i].Reads)
+				continue
+			}
+			if !eqList(obs[i].Reads, sh[i].v) {
+				return fmt.Sprintf("after op %d %s: matrix %d reads %v, the dense model of the same history gives %v (%dx%d)", k, o.Op, i, obs[i].Reads, sh[i].v, sh[i].r, sh[i].c), k
+			}
+		}
+	}
+	return "", -1
+}
+
+// ---------------------------------------------------------------- shrinking
+
+func mremoveOp(ops []MOp, k int) []MOp {
+	creates := func(o MOp) bool { return o.Op == "New" || o.Op == "T" || o.Op == "Clone" }
+	h := -1
+	if creates(ops[k]) {
+		h = 0
+		for _, o := range ops[:k] {
+			if creates(o) {
+				h++
+			}
+		}
+	}
+	var r []MOp
+	for i, o := range ops {
+		if i == k {
+			continue
+		}
+		if h >= 0 && i > k {
+			uses := o.Op != "New" && o.T == h
+			if o.Op == "Set" && o.U == h {
+				uses = true
+			}
+			if uses {
+				return nil
+			}
+			if o.Op != "New" && o.T > h {
+				o.T--
+			}
+			if o.Op == "Set" && o.U > h {
+				o.U--
+			}
+		}
+		r = append(r, o)
+	}
+	return r
+}
+
+func mshrink(c MCase) MCase {
+	fails := func(ops []MOp) bool {
+		if ops == nil {
+			return false
+		}
+		f, _ := mpropCheck(MCase{Type: c.Type, Mat: true, Ops: ops})
+		return f != ""
+	}
+	ops := c.Ops
+	if _, at := mpropCheck(c); at >= 0 && at+1 < len(ops) {
+		if fails(ops[:at+1]) {
+			ops = ops[:at+1]
+		}
+	}
+	for changed := true; changed; {
+		changed = false
+		for k := len(ops) - 1; k >= 0; k-- {
+			if k >= len(ops) {
+				continue
+			}
+			cand := mremoveOp(ops, k)
+			if fails(cand) {
+				ops = cand
+				changed = true
+			}
+		}
+	}
+	for k := range ops {
+		try := func(n MOp) {
+			cand := append(append([]MOp{}, ops[:k]...), n)
+			cand = append(cand, ops[k+1:]...)
+			if fails(cand) {
+				ops = cand
+			}
+		}
+		o := ops[k]
+		if o.Op == "SetAt" && o.X != 1 && o.X != 0 {
+			n := o
+			n.X = 1
+			try(n)
+		}
+		if o.Op == "New" {
+			for i := len(o.RI) - 1; i >= 0; i-- {
+				cur := ops[k]
+				if i >= len(cur.RI) {
+					continue
+				}
+				n := cur
+				n.RI = append(cp(cur.RI[:i]), cur.RI[i+1:]...)
+				n.CI = append(cp(cur.CI[:i]), cur.CI[i+1:]...)
+				n.XS = append(cp(cur.XS[:i]), cur.XS[i+1:]...)
+				try(n)
+			}
+		}
+		if o.Op == "Set" && o.U < 0 {
+			for i := range o.XS {
+				cur := ops[k]
+				if cur.XS[i] == 0 {
+					continue
+				}
+				n := cur
+				n.XS = cp(cur.XS)
+				n.XS[i] = 0
+				try(n)
+			}
+		}
+	}
+	return MCase{Type: c.Type, Mat: true, Ops: ops}
+}
+
+func mathunt(o Opts) {
+	type res struct {
+		Found   bool   `json:"found"`
+		Failure string `json:"failure"`
+		At      int    `json:"at"`
+		Case    MCase  `json:"case"`
+		Tried   int    `json:"tried"`
+	}
+	var r res
+	report := func(c MCase) {
+		c = mshrink(c)
+		f, at := mpropCheck(c)
+		r.Found, r.Failure, r.At = true, f, at
+		c.Outs = nil
+		r.Case = c
+	}
+	done := false
+	if o.Replay != "" {
+		if b, err := os.ReadFile(o.Replay); err == nil {
+			var rp struct {
+				Cases []MCase `json:"cases"`
+				Case  *MCase  `json:"case"`
+			}
+			json.Unmarshal(b, &rp)
+			if rp.Case != nil {
+				rp.Cases = append(rp.Cases, *rp.Case)
+			}
+			for _, c := range rp.Cases {
+				r.Tried++
+				if f, _ := mpropCheck(c); f != "" {
+					report(c)
+					done = true
+					break
+				}
+			}
+		}
+	}
+	if !done {
+		rng := NewRng(o.Seed + 104729)
+		for k := 0; k < o.N && !done; k++ {
+			tn := typeNames[k%len(typeNames)]
+			if k%2 == 0 {
+				tn = typeNames[(k/2)%3]
+			}
+			c, _ := genMatCase(rng.Split(), tn, false, nil)
+			r.Tried++
+			if f, _ := mpropCheck(c); f != "" {
+				report(c)
+				done = true
+			}
+		}
+	}
+	b, _ := json.MarshalIndent(r, "", " ")
+	os.MkdirAll(o.Out, 0755)
+	os.WriteFile(o.Out+"/mathunt.json", b, 0644)
+}
+
+func readMatCorpus(path string) []MCase {
+	var cs []MCase
+	b, err := os.ReadFile(path)
+	if err != nil {
+		return cs
+	}
+	for _, line := range strings.Split(string(b), "\n") {
+		line = strings.TrimSpace(line)
+		if line == "" || strings.HasPrefix(line, "#") {
+			continue
+		}
+		var c MCase
+		if err := json.Unmarshal([]byte(line), &c); err != nil {
+			Die("mat corpus: %v", err)
+		}
+		cs = append(cs, c)
+	}
+	return cs
+}
+
 func matMain(o Opts) {
-	Die("mat mode not built yet")
+	if o.Extra == "mathunt" {
+		mathunt(o)
+		return
+	}
+	if o.Replay != "" {
+		b, err := os.ReadFile(o.Replay)
+		if err != nil {
+			Die("%v", err)
+		}
+		var rp struct {
+			Case MCase `json:"case"`
+		}
+		if err := json.Unmarshal(b, &rp); err != nil {
+			Die("%v", err)
+		}
+		c := rp.Case
+		c.Outs = mexecute(c)
+		w := NewCaseWriter(o.Out, "replay_mat", hdrMat, "mism_mat", 1000)
+		w.Type = "mcase"
+		w.Add(coqMCase(c), c, "replay", true)
+		w.Flush()
+		return
+	}
+	corpus := ""
+	if strings.HasPrefix(o.Extra, "mat:") {
+		corpus = o.Extra[4:]
+	}
+	per := 12
+	w := NewCaseWriter(o.Out, "mat", hdrMat, "mism_mat", per)
+	w.Type = "mcase"
+	w.Rule = ruleMat
+	for _, c := range readMatCorpus(corpus) {
+		c.Mat = true
+		c.Outs = mexecute(c)
+		w.Add(coqMCase(c), c, "corpus:"+fmt.Sprint(c.Ops), true)
+		w.Count("corpus")
+	}
+	rng := NewRng(o.Seed + 15485863)
+	for k := 0; k < o.N; k++ {
+		tn := typeNames[k%len(typeNames)]
+		if k%2 == 0 {
+			tn = typeNames[(k/2)%3] // float64 / int / real64 get half of the cases
+		}
+		c, st := genMatCase(rng.Split(), tn, k%5 == 4, w)
+		c.Outs = mexecute(c)
+		w.Add(coqMCase(c), c, tn+fmt.Sprint(c.Ops), st.nontrivial())
+		w.Count("type:" + tn)
+		if st.nontrivial() {
+			w.Count("nontrivial")
+		}
+	}
+	if err := w.Flush(); err != nil {
+		Die("%v", err)
+	}
 }
